@@ -11,6 +11,7 @@ import (
 
 	"github.com/daeuniverse/dae/common"
 	"github.com/daeuniverse/dae/common/consts"
+	"github.com/daeuniverse/dae/component/outbound/dialer"
 	vk "github.com/daeuniverse/dae/verifkit"
 )
 
@@ -122,3 +123,24 @@ func verifRouteReq(p vk.RPkt, wan bool) vk.RouteReq {
 }
 
 func verifAs16(a [16]byte) [16]byte { return a }
+
+const (
+	c03ActOK       = 0
+	c03ActShot     = 2
+	c03ActPipe     = 3
+	c03ActRedirect = 7
+	c03Dae0Ifindex = 77
+	c03DaePid      = 4321
+)
+
+func c03NetworkType(udp bool, v6 bool) *dialer.NetworkType {
+	nt := &dialer.NetworkType{L4Proto: consts.L4ProtoStr_TCP, IpVersion: consts.IpVersionStr_4}
+	if udp {
+		nt.L4Proto = consts.L4ProtoStr_UDP
+		nt.UdpHealthDomain = dialer.UdpHealthDomainData
+	}
+	if v6 {
+		nt.IpVersion = consts.IpVersionStr_6
+	}
+	return nt
+}
